@@ -421,14 +421,37 @@ def operator_call(o: int, i: int, j: int) -> bool:
     with H.NoTracing():
         v = {'a': a, 'b': b, 'n': name}
         base = outcome('call($n, [$a, $b], {})', v)
-        ok = True
-        if other_shape_accepts(name, a, b):
+        infix = outcome('$a %s $b' % name[len('#operator_'):], v)
+        ok = base[0] == infix[0] and (same_value(base[1], infix[1]) if base[0] == 'ok' else base[1] == infix[1])
+        if not ok or other_shape_accepts(name, a, b):
             pass        # an overload with other parameter names (e.g. concat(*args) as '+') takes this call: nothing to compare
         elif base[0] == 'ok' or base[1] in ('NoMatchingFunctionException',):
             for text in ('call($n, [$a], {right => $b})', 'call($n, [], {left => $a, right => $b})',
                          'call($n, [], {right => $b, left => $a})'):
                 got = outcome(text, v)
                 ok = ok and got[0] == base[0] and (same_value(got[1], base[1]) if got[0] == 'ok' else got[1] == base[1])
+    return H.done(ok)
+
+
+SYSTEM_NAMES = [('#operator_mod', '$a mod $b', 2), ('#operator_in', '$a in $b', 2), ('*equal', '$a = $b', 2), ('*not_equal', '$a != $b', 2),
+                ('#operator_=~', '$a =~ $b', 2), ('#unary_operator_not', 'not $a', 1), ('#unary_operator_-', '- $a', 1),
+                ('#unary_operator_+', '+ $a', 1), ('#indexer', '$b[$a]', -2), ('#operator_/', '$a / $b', 2)]
+SNBOX = [(i,) for i in range(len(SYSTEM_NAMES))]
+
+
+def system_name_call(o: int, i: int, j: int) -> bool:
+    """
+    pre: 0 <= o < len(SYSTEM_NAMES) and 0 <= i < len(OPVALS) and 0 <= j < len(OPVALS)
+    post: _
+    """
+    # call(name, args, kwargs) reaches the same overloads as the operator syntax, for every '#'/'*' system name as registered
+    name, text, arity = SYSTEM_NAMES[SNBOX[o][0]]
+    a, b = OPVALS[VBOX[i][0]], OPVALS[VBOX[j][0]]
+    with H.NoTracing():
+        v = {'a': a, 'b': b, 'n': name}
+        direct = outcome(text, v)
+        via = outcome('call($n, [$a], {})' if arity == 1 else ('call($n, [$b, $a], {})' if arity == -2 else 'call($n, [$a, $b], {})'), v)
+        ok = direct[0] == via[0] and (same_value(direct[1], via[1]) if direct[0] == 'ok' else direct[1] == via[1])
     return H.done(ok)
 
 
@@ -526,6 +549,9 @@ def conditions(tier, seed):
             'bounds': 'every binary operator function of the live registry (%d) x %d x %d operand values: call(name, [a, b], {}) vs '
                       'call(name, [a], {right => b}) vs call(name, [], {left => a, right => b}) (selectors; each path concrete)' % (
                           len(OPNAMES), len(OPVALS), len(OPVALS))},
+           {'name': 'system_name_call', 'func': 'system_name_call', 'timeout': 300,
+            'bounds': '%d system names (#operator_mod, #operator_in, *equal, #unary_operator_not, #indexer ...) x operand values: '
+                      'call(name, args, {}) vs the operator syntax' % len(SYSTEM_NAMES)},
            {'name': 'kind_filter', 'func': 'kind_filter', 'timeout': 200,
             'bounds': '%d calls of method-only / function-only / extension functions in both spellings (and through call()) evaluated in a '
                       'plain child, two MultiContext compositions and a LinkedContext over the standard context' % len(KIND_TEXTS)},
@@ -660,6 +686,10 @@ def replay(cond, args):
         return {'reproduced': True, 'key': 'C12/operator-call-spellings',
                 'what': 'call(%r, [a, b], {}) and its keyword spellings (right => b / left => a, right => b) disagree for a=%r b=%r' % (
                     OPNAMES[args['o']], OPVALS[args['i']], OPVALS[args['j']])}
+    if cond['func'] == 'system_name_call':
+        return {'reproduced': True, 'key': 'C12/system-name-call',
+                'what': 'call(%r, ...) and the operator spelling %r disagree for a=%r b=%r' % (
+                    SYSTEM_NAMES[args['o']][0], SYSTEM_NAMES[args['o']][1], OPVALS[args['i']], OPVALS[args['j']])}
     if cond['func'] == 'kind_filter':
         return {'reproduced': True, 'key': 'C12/kind-filter',
                 'what': '%s evaluated in host context #%d (0 plain child, 1-2 MultiContext, 3 LinkedContext): expected %r' % (
